@@ -66,10 +66,27 @@ pub proof fn lemma_eq_same_feed(a: Version, b: Version)
 { if a.pre_release@.len() > 0 && b.pre_release@.len() > 0 { axiom_idents_key(a.pre_release@, b.pre_release@); } else { assert(a.pre_release@ =~= b.pre_release@); } }
 ''')
 out.append('impl std::hash::Hash for Version {\n'+inject(fn_in_impl(LIB,r'^impl std::hash::Hash for Version \{','hash'),contract='    ensures fed(final(state)) == fed(old(state)) + hash_feed(key(*self)),')+'\n}')
-out.append(P('spec_bound.rs')); out.append(P('spec_bound_traits.rs')); out.append(P('spec_range.rs'))
+out.append(P('spec_bound.rs')); out.append(P('spec_bound_traits.rs')); out.append(P('spec_range.rs')); out.append(P('spec_iter.rs')); out.append(P('spec_fold.rs'))
 partial=pubify(strip_derive(item(RNG,r'^struct Partial'))); opn=pubify(strip_derive(item(RNG,r'^enum Operation')))
 out+=[partial,clone_impl('Partial'),opn.replace('#[derive(Debug, Copy, Eq, PartialEq)]','#[derive(Debug, Copy, Clone, Eq, PartialEq)]'),'pub const MAX_SAFE_INTEGER: u64 = 900_719_925_474_099;\n']
-out.append(P('spec_npm.rs')); out.append(P('spec_repr.rs'))
+out.append(P('spec_npm.rs')); out.append(P('spec_repr.rs')); out.append(P('spec_minv.rs'))
+out.append('''
+use vstd::std_specs::convert::*;
+impl FromSpecImpl<(i32, i32, i32)> for Version { open spec fn obeys_from_spec() -> bool { false } open spec fn from_spec(v: (i32, i32, i32)) -> Self { arbitrary() } }
+impl FromSpecImpl<(i32, i32, i32, i32)> for Version { open spec fn obeys_from_spec() -> bool { false } open spec fn from_spec(v: (i32, i32, i32, i32)) -> Self { arbitrary() } }
+impl ::std::convert::From<(i32, i32, i32)> for Version {
+    #[verifier::external_body]
+    fn from(arg: (i32, i32, i32)) -> (r: Self)
+        ensures arg.0 >= 0 && arg.1 >= 0 && arg.2 >= 0 ==> key(r) == k3(arg.0 as int, arg.1 as int, arg.2 as int) && r.build@.len() == 0
+    { unimplemented!() }
+}
+impl ::std::convert::From<(i32, i32, i32, i32)> for Version {
+    #[verifier::external_body]
+    fn from(arg: (i32, i32, i32, i32)) -> (r: Self)
+        ensures arg.0 >= 0 && arg.1 >= 0 && arg.2 >= 0 && arg.3 >= 0 ==> key(r) == k4(arg.0 as int, arg.1 as int, arg.2 as int, seq![Identifier::Numeric(arg.3 as u64)]) && r.build@.len() == 0
+    { unimplemented!() }
+}
+''')
 out.append('impl Predicate {\n'+inject(fn_in_impl(RNG,r'^impl Predicate \{','flip'),ret='r',contract='    ensures r == (match self { Predicate::Excluding(v) => Predicate::Including(v), Predicate::Including(v) => Predicate::Excluding(v), Predicate::Unbounded => Predicate::Unbounded })')+'\n}')
 BI=r'^impl Bound \{'
 out.append('impl Bound {\n'+inject(fn_in_impl(RNG,BI,'upper'),ret='r',contract='    ensures r == Bound::Upper(Predicate::Unbounded)')+'\n'+inject(fn_in_impl(RNG,BI,'lower'),ret='r',contract='    ensures r == Bound::Lower(Predicate::Unbounded)')+'\n'+inject(fn_in_impl(RNG,BI,'predicate'),ret='r',contract='    ensures r == (match self { Bound::Lower(p) => p, Bound::Upper(p) => p })')+'\n}')
@@ -109,6 +126,22 @@ C['difference']=dict(ret='r',contract='''    requires bs_wf(*self), bs_wf(*other
         lemma_cut_inf(cut_of(*self.lower)); lemma_cut_inf(cut_of(*self.upper)); lemma_cut_inf(cut_of(*other.lower)); lemma_cut_inf(cut_of(*other.upper));
         assert forall|a: Bound, b: Bound| #![trigger bound_eq(a, b)] bound_eq(a, b) <==> (cut_cmp(cut_of(a), cut_of(b)) == Ordering::Equal && is_lower(a) == is_lower(b)) by { lemma_bound_eq_cut(a, b); }
     }''',closures=[('.map(|f| vec![f])','.map(|f: BoundSet| -> (rr: Vec<BoundSet>) ensures rr@.len() == 1 && rr@[0] == f { vec![f] })')])
+C['min_version']=dict(ret='r',contract='''    requires bs_wf(*self), bound_version(*self.lower) matches Some(w) ==> w.patch < 0xffff_ffff_ffff_ffff,
+    ensures minv_post(*self, r),''',
+    entry='broadcast use group_k_order;',
+    after=[('            Bound::Upper(_) => return None,\n        };','''proof {
+            let ll = cut_of(*self.lower); let uu = cut_of(*self.upper);
+            let f = key(first);
+            reveal(cut_cmp);
+            assert forall|s: Seq<Identifier>| #![trigger s.len()] s.len() == 1 && s[0] == Identifier::Numeric(0) implies s == pre0() by { assert(s =~= pre0()); }
+            assert forall|k: VKey| #![trigger above(ll, k)] wfk0(k) && above(ll, k) implies kcmp(f, k) != Ordering::Greater by {
+                if lower_excl(*self.lower) { let kv = key(bound_version(*self.lower)->0); if kv.pre.len() > 0 { lemma_succ_pre(kv, k); } else { lemma_succ_release(kv, k); } }
+                if *self.lower == Bound::Lower(Predicate::Unbounded) { lemma_least_key(k); }
+            }
+            if lower_excl(*self.lower) && key(bound_version(*self.lower)->0).pre.len() > 0 { lemma_push0_greater(key(bound_version(*self.lower)->0).pre); }
+            assert(above(ll, f));
+            assert forall|a: VKey, k: VKey| #![trigger kcmp(a, k), below(uu, k)] kcmp(a, k) != Ordering::Greater && below(uu, k) implies below(uu, a) by { lemma_below_down(uu, a, k); }
+        }''')])
 fns=[]
 BS=r'^impl BoundSet \{'
 for name,kw in C.items():
@@ -193,9 +226,54 @@ RC['difference']=dict(ret='r',contract='''    requires rwf(*self), rwf(*other),
             }
         }'''),
       ])
+MINV='''match min {
+            Some(m) => any_sat(self.0@, it0.index@ as int, key(m)) && forall|k: VKey| #![trigger any_sat(self.0@, it0.index@ as int, k)] wfk0(k) && any_sat(self.0@, it0.index@ as int, k) ==> kcmp(key(m), k) != Ordering::Greater,
+            None => forall|k: VKey| #![trigger any_sat(self.0@, it0.index@ as int, k)] wfk0(k) ==> !any_sat(self.0@, it0.index@ as int, k),
+        }'''
+RC['min_version']=dict(ret='r',contract='''    requires rwf(*self), forall|i: int| 0 <= i < self.0@.len() ==> (bound_version(*(#[trigger] self.0@[i]).lower) matches Some(w) ==> w.patch < 0xffff_ffff_ffff_ffff),
+    ensures match r {
+        Some(m) => rsat(*self, key(m)) && forall|k: VKey| #![trigger rsat(*self, k)] wfk0(k) && rsat(*self, k) ==> kcmp(key(m), k) != Ordering::Greater,
+        None => forall|k: VKey| #![trigger rsat(*self, k)] wfk0(k) ==> !rsat(*self, k),
+    },''',entry='broadcast use g_any, group_k_order;',
+    loops=[(0,'it0','rwf(*self), forall|i: int| 0 <= i < self.0@.len() ==> (bound_version(*(#[trigger] self.0@[i]).lower) matches Some(w) ==> w.patch < 0xffff_ffff_ffff_ffff), '+MINV+',')],
+    loop_entry=[(0,'let ghost old_min = min; let ghost mut cand: Option<Version> = None;')],
+    after=[('if let Some(candidate) = range.min_version() {','proof { cand = Some(candidate); }')],
+    loop_end=[(0,'''proof {
+            let n = it0.index@ as int;
+            assert(*range == self.0@[n]);
+            assert(minv_post(*range, cand));
+            assert forall|k: VKey| #![trigger any_sat(self.0@, n + 1, k)] any_sat(self.0@, n + 1, k) == (any_sat(self.0@, n, k) || sat(self.0@[n], k)) by { lemma_any_sat_step(self.0@, n, k); }
+            let new_min = min;
+            match new_min {
+                Some(m) => {
+                    lemma_any_sat_step(self.0@, n, key(m));
+                    assert forall|k: VKey| #![trigger any_sat(self.0@, n + 1, k)] wfk0(k) && any_sat(self.0@, n + 1, k) implies kcmp(key(m), k) != Ordering::Greater by {
+                        lemma_any_sat_step(self.0@, n, k);
+                        if let Some(c) = cand { lemma_k_flip(key(c), key(m)); if sat(self.0@[n], k) { lemma_k_trans(key(m), key(c), k); } }
+                        if let Some(o) = old_min { lemma_k_flip(key(m), key(o)); if any_sat(self.0@, n, k) { lemma_k_trans(key(m), key(o), k); } }
+                    }
+                },
+                None => {},
+            }
+        }''')])
+def r6(text):
+    # R6: `E.iter().filter(C).max()` -> stub(E, C') with the closure contract spliced in
+    pat=re.compile(r'(\w+)\.iter\(\)\.filter\(\|(\w+)\| ([^\n]*?)\)\.(max|min)\(\)')
+    def f(m):
+        return f"verif_std_filter_{m.group(4)}({m.group(1)}, |{m.group(2)}: &&Version| -> (b: bool) requires rwf(*self) ensures b == rsat(*self, key(**{m.group(2)})) {{ {m.group(3)} }})"
+    t,n=pat.subn(f,text)
+    if n!=1: raise AnchorLost('R6 idiom')
+    return t
+for nm,ordr in (('max_satisfying','Greater'),('min_satisfying','Less')):
+    RC[nm]=dict(ret='r',contract=f'''    requires rwf(*self),
+    ensures r matches Some(m) ==> rsat(*self, key(*m)) && (exists|k: int| 0 <= k < versions@.len() && *m == #[trigger] versions@[k])
+                && forall|j: int| 0 <= j < versions@.len() && rsat(*self, key(#[trigger] versions@[j])) ==> ver_cmp(versions@[j], *m) != Ordering::{ordr},
+            r is None ==> forall|j: int| 0 <= j < versions@.len() ==> !rsat(*self, key(#[trigger] versions@[j])),''')
 rf=[]
 for name,kw in RC.items():
-    rf.append(inject(fn_in_impl(RNG,RI,name),**kw))
+    t=fn_in_impl(RNG,RI,name)
+    if name in ('max_satisfying','min_satisfying'): t=r6(t)
+    rf.append(inject(t,**kw))
 out.append('impl Range {\n'+'\n\n'.join(rf)+'\n}')
 out.append('''
 // A10: the formatting machinery returns without panicking; nothing is assumed about its result
